@@ -212,6 +212,42 @@ def publish_needs_request(trial, calls):
     return v
 
 
+CONN_TIMEOUT_MS = 5000      # zeromq.ZMQ_CONN_TIMEOUT (the generated fact OF.Facts.ZMQ_CONN_TIMEOUT is compared with the source on every run)
+
+
+def client_table_oracle(trial):
+    """C04 'waits ... until the consumer takes frames again or has been silent for the connection timeout': a tracked client leaves the client table only
+    through ITS OWN close message or after being silent for longer than ZMQ_CONN_TIMEOUT - whoever else closes, restarts or asks.  Which requests a call
+    handled is read off the queues (delivered so far minus still queued after the call: the sender handles one queued message per pass)."""
+    out = []
+    snaps = trial.get('_snaps') or []
+    key = lambda r: (r.get('cid', ''), r.get('uid', ''), r.get('mid'), bool(r.get('new')), r.get('eph', 0))
+    queued, prev, t_last, k = [], {}, {}, 0
+    for op in trial['ops']:
+        if op['k'] == 'd':
+            queued.append(key(op['r'])); continue
+        if k >= len(snaps): break
+        left = [key(r) for r in snaps[k]['queued']]
+        handled = list(queued)
+        for r in left:
+            if r in handled: handled.remove(r)
+        queued = left
+        cur = snaps[k]['clients']
+        if op['k'] == 'c':
+            t = op['t']
+            closed = {cid + uid for cid, uid, mid, new, eph in handled if mid == -3}
+            for cid, uid, mid, new, eph in handled:
+                if mid is not None and mid >= -1 and cid + uid in cur: t_last[cid + uid] = t
+            for fid in prev:
+                if fid not in cur and fid not in closed and fid in t_last and t - t_last[fid] <= CONN_TIMEOUT_MS:
+                    out.append(('client-dropped-without-close', f"call #{k} at t={t}: client {fid} left the client table although it did not close (close messages handled in this call: "
+                                f"{sorted(closed)}) and was heard {t - t_last[fid]} ms ago (time-out {CONN_TIMEOUT_MS} ms)"))
+                    return out
+        prev = {} if op['k'] == 'destroy' else dict(cur)
+        k += 1
+    return out
+
+
 def canon_model_calls(resp, n):
     return [c['outs'] for c in resp['calls'][:n]]
 
@@ -263,6 +299,7 @@ def oracles(trial, calls):
                 break
         k += 1
     v['C04'] += v.get('C03', []); v.setdefault('C06', []).extend(v.get('C03', []))
+    v['C04'] += client_table_oracle(trial)
     pr = publish_needs_request(trial, calls)
     v['C04'] += pr
     if trial['balance']: v['C07'] += [('bal-output-not-ready', w) for _, w in pr]
